@@ -232,3 +232,86 @@ def trim_range_validate(S):
     return validate_translation(S, 'trim_range', fn, samples,
                                 lambda inp: _native_trim_range(S, inp['s'], inp['a'], inp['b']),
                                 lambda v: (simp(v.fields[0]), simp(v.fields[1])))
+
+
+# ---------------------------------------------------------------------------
+# C10: post-processing versus literal content
+
+
+def strip_literal(S, N):
+    """s = p . t . q with t an arbitrary token text (first and last char non-blank, as for every literal token).
+    Phi0 (what C10 needs): t occurs unchanged in strip(s)            -> fails: known finding, two classes
+    Phi1 (complement)    : E(t) occurs in strip(s), E = t minus blanks directly before a line feed -> must hold"""
+    fn = S.find_fn(S.core, 'strip_trailing_whitespace')
+    found = []
+    for n in range(1, N + 1):
+        for lp in range(0, n):
+            for lt in range(1, n - lp + 1):
+                lq = n - lp - lt
+                if lq > 1 or lp > 1:
+                    continue       # one character of context on each side is enough: the kernel is line-local
+                def body(ctx, n=n, lp=lp, lt=lt):
+                    m = S.machine(S.core, STD, ctx)
+                    s = sym_str(ctx, 's', n)
+                    t = s.sub(lp, lp + lt)
+                    ctx.assume(b_not(is_ws(t.chars[0])))
+                    ctx.assume(b_not(is_ws(t.chars[-1])))
+                    try:
+                        r = m.call_fn(fn, [s])
+                    except Panic as p:
+                        S.absorb(m)
+                        ctx.must_hold(False, 'panic', lambda mdl: dict(s=s.concrete(mdl), t=t.concrete(mdl)))
+                        return
+                    S.absorb(m)
+                    # E(t): drop every maximal blank run that directly precedes a LF (character tests are decided on this path already)
+                    keep = []
+                    i = 0
+                    cs = t.chars
+                    while i < len(cs):
+                        j = i
+                        while j < len(cs) and ctx.branch(b_and(is_ws(cs[j]), b_not(c_eq(cs[j], 10)))):
+                            j += 1
+                        if j > i and j < len(cs) and ctx.branch(c_eq(cs[j], 10)):
+                            i = j          # run followed by LF: dropped
+                            continue
+                        keep.extend(cs[i:max(j, i + 1)])
+                        i = max(j, i + 1)
+                    et = Str(keep)
+
+                    def occurs(x):
+                        k = len(x)
+                        return b_or(*[str_eq(r.sub(o, o + k), x) for o in range(0, len(r) - k + 1)])
+                    describe = lambda mdl: dict(s=s.concrete(mdl), t=t.concrete(mdl), stripped=r.concrete(mdl))
+                    ctx.must_hold(occurs(et), 'literal-corrupted-beyond-line-end-blanks', describe)
+                    has_cr = b_or(*[b_and(c_eq(cs[k], 13), c_eq(cs[k + 1], 10)) for k in range(len(cs) - 1)])
+                    has_blank = b_or(*[b_and(is_ws(cs[k]), b_not(c_eq(cs[k], 13)), b_not(c_eq(cs[k], 10)), c_eq(cs[k + 1], 10)) for k in range(len(cs) - 1)])
+                    ot = occurs(t)
+                    ctx.must_hold(b_implies(has_blank, ot), 'blank-before-LF-inside-literal', describe)
+                    ctx.must_hold(b_implies(b_and(has_cr, b_not(has_blank)), ot), 'CR-before-LF-inside-literal', describe)
+                    ctx.must_hold(b_implies(b_and(b_not(has_cr), b_not(has_blank)), ot), 'literal-changed', describe)
+                    ctx.witness('literal with interior line feed', b_or(*[c_eq(c, 10) for c in cs]))
+                ob, ex = S.explore('strip.literal[p=%d,t=%d,q=%d]' % (lp, lt, lq),
+                                   'strip(p.t.q) keeps token text t (|p|=%d,|t|=%d,|q|=%d code points) apart from blanks directly before a line feed' % (lp, lt, lq),
+                                   body, bounds=dict(p=lp, t=lt, q=lq))
+                for lab, mdl, info in ex.violations:
+                    found.append((lab, info))
+    return found
+
+
+def literal_api_replay(S, t):
+    """does a string / raw literal with content t survive Typstyle::format_content?"""
+    cands = []
+    if '"' not in t and '\\' not in t:
+        cands.append(('string', '#let s = "' + t + '"\n', '"' + t + '"'))
+    if '`' not in t:
+        cands.append(('raw-block', '````\n' + t + '\n````\n', t))
+    for kind, src, needle in cands:
+        if S.driver.call('erroneous', hexs(src))[1] == '1':
+            continue
+        r = S.driver.call('format', hexs(src), 80, 2, 0)
+        if r[0] != 'ok':
+            continue
+        out = unhexs(r[1])
+        if needle not in out:
+            return dict(api='Typstyle::format_content', literal=kind, source=src, output=out)
+    return None
